@@ -207,3 +207,19 @@ package journal
 //@   requires d != nil
 //@   modifies d.Transactions[*]
 //@   ensures result == nil && d.Transactions == old(d.Transactions)
+//
+// ---- Builder: directives are grouped by day and kind, independent of arrival order ----------------
+//
+//@ def wfBuilder(j *Builder) bool := j != nil && j.days != nil
+//@     && (forall k time.Time :: {key(j.days, k)} (k in j.days) ==> j.days[k] != nil && live(j.days[k]) && j.days[k].Date == k)
+//@     && (forall a time.Time, b time.Time :: {rawval(j.days, a), rawval(j.days, b)} (a in j.days) && (b in j.days) && a != b ==> j.days[a] != j.days[b])
+//
+// Day: the day of a date exists afterwards, is the one stored under that date, and no other entry changes.
+//@ func (*Builder).Day
+//@   requires wfBuilder(j)
+//@   modifies j.days[*]
+//@   ensures wfBuilder(j) && result != nil && (d in j.days) && j.days[d] == result && result.Date == d
+//@   ensures old(d in j.days) ==> result == old(j.days[d]) && dom(j.days) == old(dom(j.days)) && vals(j.days) == old(vals(j.days))
+//@   ensures !old(d in j.days) ==> fresh(result) && dom(j.days) == upd(old(dom(j.days)), d, true) && vals(j.days) == upd(old(vals(j.days)), d, result)
+//@        && len(result.Prices) == 0 && len(result.Openings) == 0 && len(result.Transactions) == 0 && len(result.Assertions) == 0 && len(result.Closings) == 0
+//
